@@ -13,6 +13,7 @@ import (
 	"path/filepath"
 	"runtime"
 	"runtime/debug"
+	"runtime/pprof"
 	"sort"
 	"strconv"
 	"strings"
@@ -244,6 +245,18 @@ func Main() {
 		work(os.Args[2], os.Args[3], w, n, os.Args[6])
 	case "case":
 		idx, _ := strconv.ParseInt(os.Args[4], 10, 64)
+		if pf := os.Getenv("VERIF_CPUPROFILE"); pf != "" {
+			// development aid: profile one case, repeated so that the profile has something in it
+			f, _ := os.Create(pf)
+			pprof.StartCPUProfile(f)
+			rc := 0
+			for i := 0; i < 20; i++ {
+				rc = single(os.Args[2], os.Args[3], seedFromEnv(), idx, i == 0)
+			}
+			pprof.StopCPUProfile()
+			f.Close()
+			os.Exit(rc)
+		}
 		os.Exit(single(os.Args[2], os.Args[3], seedFromEnv(), idx, true))
 	case "probe": // used by the hang protocol: run one case silently
 		idx, _ := strconv.ParseInt(os.Args[4], 10, 64)
